@@ -78,20 +78,20 @@ def answer (docs : Docs) (items : List Sexp) : Option (Docs × String) := do
     match decodeWith d ty p bs (dn.endsWith "k") with
     | .ok (v, rem) => pure (docs, s!"ok {shown v} rem={rem}")
     | o => pure (docs, o.cls)
-  | "gd" | "gb" | "ga" =>
+  | "gd" | "gb" | "ga" | "gab" =>
     let dn ← items[1]? >>= Sexp.asAtom
     let ty ← items[2]? >>= Sexp.asAtom
     let p ← items[3]? >>= Sexp.asAtom >>= Driver.Thrift.Proto.of
     let d ← (docs.find? (·.1 == dn)).map (·.2)
-    let idx := if verb == "ga" then 5 else 4
-    let input : Out Bytes ← if verb == "gb" then (.ok <$> (items[idx]? >>= Sexp.asHex)) else (inputOf p <$> (items[idx]? >>= TVal.ofSexp))
+    let idx := if verb == "ga" || verb == "gab" then 5 else 4
+    let input : Out Bytes ← if verb == "gb" || verb == "gab" then (.ok <$> (items[idx]? >>= Sexp.asHex)) else (inputOf p <$> (items[idx]? >>= TVal.ofSexp))
     match input with
     | .ok bs =>
       match decodeWith d ty p bs (dn.endsWith "k") with
       | .ok (v, rem) =>
-        if verb == "ga" then pure (docs, s!"ok {shown v} pulled={bs.length - rem}")
+        if verb == "ga" || verb == "gab" then pure (docs, s!"ok {shown v} pulled={bs.length - rem}")
         else pure (docs, s!"ok {shown v} rem={rem}")
-      | o => pure (docs, o.cls)
+      | o => pure (docs, if (verb == "ga" || verb == "gab") && o.cls == "depth" then "err" else o.cls)
     | _ => pure (docs, "err-input")
   | "gl" =>
     let dn ← items[1]? >>= Sexp.asAtom
